@@ -415,26 +415,52 @@ def _chain_of(arr):
     return off // (arr.size * arr.itemsize)
 
 
-def _orch_drive(mc, temps, steps, rand, llk0, fresh_llk, np_shim):
+ORCH_NAL = [2, 3]  # distinctive model parameters: every move and exchange must receive exactly these
+
+
+def _orch_drive(mc, temps, steps, rand, llk0, fresh_llk, np_shim, inbreeding=0):
     """run mc._denovo_assembler with recording stubs; returns (calls, genotype_trace, llk_trace)"""
     calls = []
     marker = [0]
+    reads_obj = rnp.zeros((1, 2, 3))
+    counts_obj = rnp.array([3])
 
     def mk(tag):
+        real = getattr(mc, tag).compound_step  # still the repository's function: bound before the substitution below
+        real = getattr(real, "py_func", real)
+
         def f(genotype, reads, llk, *a, **k):
             out = fresh_llk(tag)
             marker[0] += 1
             genotype[0, 0] = marker[0]
-            calls.append(dict(move=tag, chain=_chain_of(genotype), llk_in=llk, temp=k.get("temp"), llk_out=out, marker=marker[0]))
+            import inspect
+
+            # model parameters as the real callee would bind them (its own signature and defaults)
+            ba = inspect.signature(real).bind(genotype, reads, llk, *a, **k)
+            ba.apply_defaults()
+            b = ba.arguments
+            calls.append(dict(move=tag, chain=_chain_of(genotype), llk_in=llk, temp=k.get("temp"), llk_out=out, marker=marker[0],
+                              inbreeding=b.get("inbreeding"), lu=b.get("log_unique_haplotypes"), same_reads=b.get("reads") is reads_obj,
+                              same_counts=b.get("read_counts") is counts_obj,
+                              n_alleles=[int(x) for x in b["n_alleles"]] if "n_alleles" in b else None))
             return out, k.get("cache")
         return f
 
-    def swap(genotype_i, llk_i, temp_i, genotype_j, llk_j, temp_j, log_unique_haplotypes, inbreeding=0):
+    real_swap = getattr(mc.chain_swap_step, "py_func", mc.chain_swap_step)
+
+    def swap(*a, **k):
+        import inspect
+
+        ba = inspect.signature(real_swap).bind(*a, **k)
+        ba.apply_defaults()
+        b = ba.arguments
+        genotype_i, genotype_j = b["genotype_i"], b["genotype_j"]
         oi, oj = fresh_llk("swi"), fresh_llk("swj")
         tmp = genotype_i.copy()
         genotype_i[:] = genotype_j
         genotype_j[:] = tmp
-        calls.append(dict(move="swap", ci=_chain_of(genotype_i), cj=_chain_of(genotype_j), llk_i=llk_i, llk_j=llk_j, temp_i=temp_i, temp_j=temp_j, out_i=oi, out_j=oj))
+        calls.append(dict(move="swap", ci=_chain_of(genotype_i), cj=_chain_of(genotype_j), llk_i=b["llk_i"], llk_j=b["llk_j"], temp_i=b["temp_i"], temp_j=b["temp_j"], out_i=oi, out_j=oj,
+                          inbreeding=b.get("inbreeding"), lu=b.get("log_unique_haplotypes")))
         return oi, oj
 
     saved = (mc.mutation.compound_step, mc.structural.compound_step, mc.chain_swap_step, mc.random_choice, mc.structural.random_breaks, mc.log_likelihood, mc.np)
@@ -447,8 +473,8 @@ def _orch_drive(mc, temps, steps, rand, llk0, fresh_llk, np_shim):
         mc.log_likelihood = lambda reads, genotype, read_counts=None: llk0
         mc.np = np_shim(rand)
         fn = getattr(mc._denovo_assembler, "py_func", mc._denovo_assembler)
-        gt, lt = fn(genotype=rnp.array([[0, 1], [1, 0]], dtype=rnp.int8), inbreeding=0, reads=rnp.zeros((1, 2, 2)), read_counts=None,
-                    n_alleles=rnp.array([2, 2], dtype=rnp.int8), steps=steps, break_dist=rnp.array([1.0]),
+        gt, lt = fn(genotype=rnp.array([[0, 1], [1, 0]], dtype=rnp.int8), inbreeding=inbreeding, reads=reads_obj, read_counts=counts_obj,
+                    n_alleles=rnp.array(ORCH_NAL, dtype=rnp.int8), steps=steps, break_dist=rnp.array([1.0]),
                     recombination_step_probability=0.5, partial_dosage_step_probability=1.0, dosage_step_probability=1.0,
                     temperatures=rnp.array(temps, dtype=float), return_heated_trace=False, llk_cache_threshold=-1)
     finally:
@@ -456,10 +482,27 @@ def _orch_drive(mc, temps, steps, rand, llk0, fresh_llk, np_shim):
     return calls, gt, lt
 
 
-def _orch_verify(calls, temps, steps, gt, lt, llk0, eq, num):
+def _orch_verify(calls, temps, steps, gt, lt, llk0, eq, num, inbreeding=None, eqr=None, lu_tol=1e-9):
     """state machine over the recorded calls.  eq(a, b): claim object that llk a == llk b;
-    num(x): concrete float of a temperature.  Returns (structural error or None, list of claims)"""
+    num(x): concrete float of a temperature; eqr(a, b): claim that two plain reals are equal (model parameters).
+    Returns (structural error or None, list of claims)"""
     nT = len(temps)
+    if inbreeding is not None:
+        import math
+
+        lu = math.log(float(rnp.prod(ORCH_NAL)))
+        for cd in calls:
+            # every move and every exchange works on the same target: same inbreeding, same haplotype-space size, same reads
+            if cd.get("inbreeding") is None or cd.get("lu") is None:
+                return "move %s does not receive the model parameters (inbreeding / log_unique_haplotypes)" % cd["move"], []
+            if abs(num(cd["lu"]) - lu) > lu_tol:
+                return "move %s receives log_unique_haplotypes=%r (expected ln %d)" % (cd["move"], num(cd["lu"]), int(rnp.prod(ORCH_NAL))), []
+            if cd["move"] != "swap" and not (cd["same_reads"] and cd["same_counts"]):
+                return "move %s does not receive the sampler's reads / read counts" % cd["move"], []
+            if cd.get("n_alleles") is not None and cd["n_alleles"] != ORCH_NAL:
+                return "move %s receives n_alleles=%r" % (cd["move"], cd["n_alleles"]), []
+    claims0 = [eqr(cd["inbreeding"], inbreeding) for cd in calls] if inbreeding is not None else []
+
     cur = [llk0] * nT
     mark = [None] * nT
     claims = []
@@ -498,7 +541,7 @@ def _orch_verify(calls, temps, steps, gt, lt, llk0, eq, num):
             return "trace genotype of step %d is not the cold chain's state (marker %r, expected %r)" % (step, int(gt[0][step][0, 0]), mark[nT - 1]), claims
     if k != len(calls):
         return "unconsumed calls", claims
-    return None, claims
+    return None, claims0 + claims
 
 
 def _run_orch(c, col):
@@ -535,8 +578,9 @@ def _run_orch(c, col):
 
                 L0 = E.fresh_real(ctx, "L0", 0)
                 llk0 = E.np.log(E.SymReal(L0))
-                calls, gt, lt = _orch_drive(mc, temps, steps, rand, llk0, fresh_llk, shim)
-                return calls, gt, lt, llk0
+                F = E.SymReal(E.fresh_real(ctx, "F", 0, 1))
+                calls, gt, lt = _orch_drive(mc, temps, steps, rand, llk0, fresh_llk, shim, inbreeding=F)
+                return calls, gt, lt, llk0, F
 
             first = True
             for pr in E.explore(body, stats=col.stats):
@@ -546,14 +590,15 @@ def _run_orch(c, col):
                 if first:
                     col.reachable(pr.ctx)
                     first = False
-                calls, gt, lt, llk0 = pr.value
-                err, claims = _orch_verify(calls, temps, steps, gt, lt, llk0, lambda a, b: E.exp_term(a) == E.exp_term(b), lambda x: E.to_float(x))
+                calls, gt, lt, llk0, F = pr.value
+                err, claims = _orch_verify(calls, temps, steps, gt, lt, llk0, lambda a, b: E.exp_term(a) == E.exp_term(b), lambda x: E.to_float(x),
+                                           inbreeding=F, eqr=lambda a, b: E.real_term(a) == E.real_term(b))
                 w = dict(temps=temps, steps=steps)
                 if err:
                     col.fail(site, "orchestration", witness=dict(w, why=err), desc=err, model=E.model_dict(E.prove(pr.ctx, False).model))
                 else:
                     col.check(pr.ctx, z3.And(claims), site, "orchestration", witness=w,
-                              desc="_denovo_assembler: every move of chain t gets temperatures[t] and the llk last stored for t; exchange is (t, t-1) with their temperatures/llks; the trace records the cold chain")
+                              desc="_denovo_assembler: every move of chain t gets temperatures[t] and the llk last stored for t; exchange is (t, t-1) with their temperatures/llks; every move and exchange receives the sampler's inbreeding (symbolic F), log_unique_haplotypes, reads and counts; the trace records the cold chain")
     col.functions |= set(prof.names())
 
 
@@ -805,10 +850,15 @@ def _replay_orch(v):
         s_.random = type("R", (), {"rand": staticmethod(rand)})()
         return s_
 
-    calls, gt, lt = _orch_drive(rm, temps, steps, rand, 0.5, fresh, shim)
-    err, claims = _orch_verify(calls, temps, steps, gt, lt, 0.5, lambda a, b: a == b, float)
+    F = float(m.get("F", 0.375)) or 0.375
+    calls, gt, lt = _orch_drive(rm, temps, steps, rand, 0.5, fresh, shim, inbreeding=F)
+    err, claims = _orch_verify(calls, temps, steps, gt, lt, 0.5, lambda a, b: a == b, float, inbreeding=F, eqr=lambda a, b: float(a) == float(b),
+                               lu_tol=5e-3)  # py_func: numpy's log of an int8 array is float16 (numba computes float64)
     if err:
         return True, err
+    for cd in calls:
+        if cd.get("inbreeding") is not None and float(cd["inbreeding"]) != F:
+            return True, "%s of chain %s receives inbreeding=%r although the sampler runs with inbreeding=%r" % (cd["move"], cd.get("chain", cd.get("ci")), float(cd["inbreeding"]), F)
     if not all(claims):
         return True, "carried llk mismatch in call sequence (claim %d of %d false)" % (claims.index(False), len(claims))
     return False, "orchestration wiring as expected on the real code"
